@@ -38,7 +38,7 @@ def random_history(rng, n, ALL=ALL, lifo=False):
             ops.append(["deact", p, rng.choice(["normal", "exc", "explicit", "derived"])])
             status[p] = "done"
         else:
-            ops.append(["call", rng.choice(["f", "g"]), rng.choice([k + 1, 12])])
+            ops.append(["callno" if rng.random() < 0.1 else "call", rng.choice(["f", "g"]), rng.choice([k + 1, 12])])
     return ops
 
 
